@@ -1,4 +1,1112 @@
-//! C17 — postx (stub)
+//! C17 — "post part": the `post` version 2.0 rebuild (klippa/src/post.rs), maxp / head / hhea rewrites
+//! (maxp.rs, head.rs, glyf_loca.rs `subset_head`, hmtx.rs tail), VORG (vorg.rs) and the pass-through of
+//! vmtx / vhea (lib.rs `subset_table`).  Model: lean/FontVerif/Model/SubsetPost.lean, theorems Props/C17Post.lean,
+//! driver commands `c17.post2*`, `c17.head*`, `c17.hhea`, `c17.maxp2`, `c17.vorg*`, `c17.vmtx`.
+use super::{build_font, encode_composite, make_plan, rand_cmap, rand_metrics, rand_simple, simple_comp, sized_simple, table, Req, Syn};
 use fv_harness::common::*;
+use klippa::{subset_font, verif_hooks as vh, SubsetError};
+use read_fonts::tables::glyf::Glyph;
+use read_fonts::tables::post::{Post, DEFAULT_GLYPH_NAMES};
+use read_fonts::types::{GlyphId, GlyphId16, Tag};
+use read_fonts::{FontData, FontRead, FontRef, TableProvider};
+use write_fonts::FontBuilder;
 
-pub fn run(_cfg: &Config, _s: &mut Session, _r: &mut Rng) {}
+const F_NO_HINTING: u16 = 0x0001;
+const F_RETAIN_GIDS: u16 = 0x0002;
+const F_NOTDEF_OUTLINE: u16 = 0x0040;
+const F_GLYPH_NAMES: u16 = 0x0080;
+
+fn pu16(out: &mut Vec<u8>, v: u32) {
+    out.extend_from_slice(&(v as u16).to_be_bytes());
+}
+fn pu32(out: &mut Vec<u8>, v: u32) {
+    out.extend_from_slice(&v.to_be_bytes());
+}
+fn rd16(b: &[u8], i: usize) -> u16 {
+    u16::from_be_bytes([b[i], b[i + 1]])
+}
+
+fn with_tables(font: &[u8], tables: Vec<([u8; 4], Vec<u8>)>) -> Vec<u8> {
+    let f = FontRef::new(font).expect("base font");
+    let mut b = FontBuilder::new();
+    for (tag, data) in tables {
+        b.add_raw(Tag::new(&tag), data);
+    }
+    b.copy_missing_tables(f);
+    b.build()
+}
+
+fn without_table(font: &[u8], drop: &[u8; 4]) -> Vec<u8> {
+    let f = FontRef::new(font).expect("base font");
+    let mut b = FontBuilder::new();
+    for rec in f.table_directory.table_records() {
+        let tag = rec.tag();
+        if tag == Tag::new(drop) {
+            continue;
+        }
+        if let Some(d) = f.table_data(tag) {
+            b.add_raw(tag, d.as_bytes().to_vec());
+        }
+    }
+    b.build()
+}
+
+// ---------------------------------------------------------------------------------------------
+// post tables
+// ---------------------------------------------------------------------------------------------
+
+struct PostSpec {
+    version: u32,
+    /// the numGlyphs field (the index array has exactly this many entries)
+    idx: Vec<u16>,
+    /// Pascal strings: the bytes after the length byte
+    strings: Vec<Vec<u8>>,
+    /// bytes removed from the end of the table (truncates the last string)
+    cut: usize,
+    /// raw bytes appended after the strings (e.g. a length byte without its string)
+    tail: Vec<u8>,
+}
+
+fn build_post(r: &mut Rng, sp: &PostSpec) -> Vec<u8> {
+    let mut t = vec![];
+    pu32(&mut t, sp.version);
+    t.extend(r.bytes(28));
+    if sp.version >> 16 == 2 {
+        pu16(&mut t, sp.idx.len() as u32);
+        for i in &sp.idx {
+            pu16(&mut t, *i as u32);
+        }
+        let start = t.len();
+        for nm in &sp.strings {
+            t.push(nm.len() as u8);
+            t.extend_from_slice(nm);
+        }
+        t.extend_from_slice(&sp.tail);
+        let cut = sp.cut.min(t.len() - start);
+        t.truncate(t.len() - cut);
+    }
+    t
+}
+
+fn rand_name_string(r: &mut Rng, k: usize, pool: &[Vec<u8>]) -> Vec<u8> {
+    match r.below(20) {
+        0 | 1 if !pool.is_empty() => r.pick(pool).clone(), // the same name stored twice
+        2 | 3 => DEFAULT_GLYPH_NAMES[r.below(258) as usize].as_bytes().to_vec(), // equals a standard name
+        4 => b".notdef".to_vec(),
+        5 => vec![],                                                  // empty string
+        6 => {
+            let mut v = format!("L{k}_").into_bytes(); // 255 bytes
+            while v.len() < 255 {
+                v.push(b'a' + (v.len() % 26) as u8);
+            }
+            v
+        }
+        7 => {
+            let mut v = format!("n{k}").into_bytes(); // not ASCII: PString::read fails
+            v.push(0x80 + r.below(0x80) as u8);
+            v
+        }
+        8 => format!("uni{:04X}.alt{}", r.below(0x10000), r.below(3)).into_bytes(),
+        _ => format!("g{}x{}", k, r.below(50)).into_bytes(),
+    }
+}
+
+/// a version 2.0 table for a font with `n` glyphs: every index class, shared / duplicate / standard / empty /
+/// 255-byte / non-ASCII strings, unused strings, indices beyond the list, truncated string data, numGlyphs != n
+fn rand_post_v2(r: &mut Rng, n: usize) -> PostSpec {
+    let num = match r.below(12) {
+        0 => n.saturating_sub(1 + r.below((n / 2).max(1) as u64) as usize),
+        1 => n + 1 + r.below(5) as usize,
+        2 => *r.pick(&[0usize, 1, 2]),
+        _ => n,
+    };
+    let m = match r.below(6) {
+        0 => 0,
+        1 => 1 + r.below(3) as usize,
+        _ => r.below(num as u64 + 4) as usize,
+    };
+    let mut strings: Vec<Vec<u8>> = vec![];
+    for k in 0..m {
+        let s = rand_name_string(r, k, &strings);
+        strings.push(s);
+    }
+    let all_std = r.chance(1, 12);
+    let all_custom = r.chance(1, 10);
+    let idx: Vec<u16> = (0..num)
+        .map(|_| {
+            let c = if all_std { 0 } else if all_custom { 5 } else { r.below(12) };
+            match c {
+                0..=2 => {
+                    let any = r.below(258) as u16;
+                    *r.pick(&[0u16, 1, 3, 36, 100, 200, 256, 257, any])
+                }
+                3..=8 if m > 0 => 258 + r.below(m as u64) as u16,
+                9 => 258 + m as u16 + r.below(3) as u16, // beyond the string list
+                10 => *r.pick(&[0xFFFFu16, 258 + m as u16, 30000]),
+                _ => r.below(258) as u16,
+            }
+        })
+        .collect();
+    let (cut, tail) = match r.below(10) {
+        0 => (1 + r.below(3) as usize, vec![]),
+        1 => (0, vec![7]),                  // a length byte without its string
+        2 => (0, vec![3, b'a', b'b']),      // a truncated last string
+        _ => (0, vec![]),
+    };
+    PostSpec { version: 0x0002_0000, idx, strings, cut, tail }
+}
+
+// ---------------------------------------------------------------------------------------------
+// glyph statistics (for the maxp oracle), computed with read-fonts only
+// ---------------------------------------------------------------------------------------------
+
+#[derive(Clone, Copy, Default, Debug, PartialEq)]
+struct GStat {
+    points: u32,
+    contours: u32,
+    comp_points: u32,
+    comp_contours: u32,
+    comp_elements: u32,
+    comp_depth: u32,
+}
+
+fn glyph_of<'a>(font: &FontRef<'a>, gid: u32) -> Option<Glyph<'a>> {
+    let loca = font.loca(None).ok()?;
+    let glyf = font.glyf().ok()?;
+    loca.get_glyf(GlyphId::new(gid), &glyf).ok().flatten()
+}
+
+/// (points, contours, depth) of the flattened glyph; depth 0 = simple
+fn flat(font: &FontRef, gid: u32, level: u32) -> (u32, u32, u32) {
+    if level > 16 {
+        return (0, 0, 0);
+    }
+    match glyph_of(font, gid) {
+        None => (0, 0, 0),
+        Some(Glyph::Simple(g)) => (g.num_points() as u32, g.number_of_contours().max(0) as u32, 0),
+        Some(Glyph::Composite(c)) => {
+            let (mut p, mut k, mut d) = (0u32, 0u32, 0u32);
+            for comp in c.components() {
+                let (a, b, e) = flat(font, comp.glyph.to_u32(), level + 1);
+                p += a;
+                k += b;
+                d = d.max(e);
+            }
+            (p, k, d + 1)
+        }
+    }
+}
+
+fn gstat(font: &FontRef, gid: u32) -> GStat {
+    match glyph_of(font, gid) {
+        None => GStat::default(),
+        Some(Glyph::Simple(g)) => GStat { points: g.num_points() as u32, contours: g.number_of_contours().max(0) as u32, ..Default::default() },
+        Some(Glyph::Composite(c)) => {
+            let (p, k, d) = flat(font, gid, 0);
+            GStat { comp_points: p, comp_contours: k, comp_elements: c.components().count() as u32, comp_depth: d, ..Default::default() }
+        }
+    }
+}
+
+impl GStat {
+    fn max(self, o: GStat) -> GStat {
+        GStat {
+            points: self.points.max(o.points),
+            contours: self.contours.max(o.contours),
+            comp_points: self.comp_points.max(o.comp_points),
+            comp_contours: self.comp_contours.max(o.comp_contours),
+            comp_elements: self.comp_elements.max(o.comp_elements),
+            comp_depth: self.comp_depth.max(o.comp_depth),
+        }
+    }
+    /// maxp 1.0 fields maxPoints(6) maxContours(8) maxCompositePoints(10) maxCompositeContours(12)
+    /// maxComponentElements(28) maxComponentDepth(30)
+    fn bounded_by(self, maxp: &[u8]) -> bool {
+        maxp.len() >= 32
+            && self.points <= rd16(maxp, 6) as u32
+            && self.contours <= rd16(maxp, 8) as u32
+            && self.comp_points <= rd16(maxp, 10) as u32
+            && self.comp_contours <= rd16(maxp, 12) as u32
+            && self.comp_elements <= rd16(maxp, 28) as u32
+            && self.comp_depth <= rd16(maxp, 30) as u32
+    }
+}
+
+/// a version 1.0 maxp whose limits are exact for the font's glyphs (hinting limits random, non-zero)
+fn true_maxp(r: &mut Rng, font_bytes: &[u8], n: usize, extra_tail: usize) -> Vec<u8> {
+    let font = FontRef::new(font_bytes).expect("font");
+    let mut m = GStat::default();
+    for g in 0..n as u32 {
+        m = m.max(gstat(&font, g));
+    }
+    let slack = r.below(3) as u32;
+    let mut t = vec![];
+    pu32(&mut t, 0x0001_0000);
+    pu16(&mut t, n as u32);
+    pu16(&mut t, m.points + slack);
+    pu16(&mut t, m.contours);
+    pu16(&mut t, m.comp_points + slack);
+    pu16(&mut t, m.comp_contours);
+    pu16(&mut t, 2); // maxZones
+    for _ in 0..6 {
+        pu16(&mut t, 1 + r.below(500) as u32); // maxTwilightPoints .. maxSizeOfInstructions
+    }
+    pu16(&mut t, m.comp_elements);
+    pu16(&mut t, m.comp_depth);
+    assert_eq!(t.len(), 32);
+    t.extend(r.bytes(extra_tail));
+    t
+}
+
+// ---------------------------------------------------------------------------------------------
+// synthetic glyf fonts
+// ---------------------------------------------------------------------------------------------
+
+fn base_syn(r: &mut Rng, name: &str, n: usize, cheap: bool) -> Syn {
+    let mut glyphs: Vec<Vec<u8>> = vec![];
+    for g in 0..n {
+        let rec = if g == 0 {
+            sized_simple(30, 1)
+        } else if cheap && g > 12 {
+            vec![]
+        } else {
+            match r.below(10) {
+                0 | 1 => vec![],
+                2 | 3 if g >= 3 => {
+                    let k = 1 + r.below(3) as usize;
+                    let comps: Vec<_> = (0..k).map(|_| simple_comp(1 + r.below(g as u64 - 1) as u16)).collect();
+                    encode_composite(&comps, None)
+                }
+                _ => {
+                    let npts = *r.pick(&[1usize, 2, 3, 5, 9, 14]);
+                    let il = *r.pick(&[0usize, 0, 1, 4]);
+                    let rep = r.chance(1, 2);
+                    rand_simple(r, npts, il, rep)
+                }
+            }
+        };
+        glyphs.push(rec);
+    }
+    let (adv, lsb, num_long) = rand_metrics(r, n);
+    Syn { name: name.to_string(), glyphs, adv, lsb, num_long, cmap: rand_cmap(r, n, 20), long_loca: r.chance(1, 4), align: *r.pick(&[2usize, 2, 4]) }
+}
+
+fn vhea_table(num_long: usize) -> Vec<u8> {
+    let mut t = vec![];
+    pu32(&mut t, 0x0001_1000);
+    for v in [500i32, -500, 0, 1000, 0, 0, 1000, 1, 0, 0, 0, 0, 0, 0, 0] {
+        t.extend_from_slice(&(v as i16).to_be_bytes());
+    }
+    pu16(&mut t, num_long as u32);
+    assert_eq!(t.len(), 36);
+    t
+}
+
+/// vmtx with distinct advances / top side bearings (so that a wrong glyph's metric is visible)
+fn vmtx_table(r: &mut Rng, n: usize, num_long: usize, distinct: bool) -> Vec<u8> {
+    let mut t = vec![];
+    let mut last = 0u32;
+    for g in 0..n {
+        if g < num_long {
+            last = if distinct { 1000 + g as u32 } else { 1000 + r.below(3) as u32 };
+            pu16(&mut t, last);
+        }
+        let tsb = if distinct { 10 + g as i32 } else { r.range(-5, 5) as i32 };
+        t.extend_from_slice(&(tsb as i16).to_be_bytes());
+    }
+    let _ = last;
+    t
+}
+
+fn vorg_table(r: &mut Rng, n: usize, sorted: bool) -> Vec<u8> {
+    let mut recs: Vec<(u16, i16)> = vec![];
+    for g in 0..(n as u32 + 3) {
+        if r.chance(2, 5) {
+            recs.push((g as u16, r.range(-300, 1200) as i16));
+        }
+    }
+    if !sorted && recs.len() >= 2 {
+        r.shuffle(&mut recs);
+    }
+    let mut t = vec![];
+    pu32(&mut t, 0x0001_0000);
+    t.extend_from_slice(&(880i16).to_be_bytes());
+    pu16(&mut t, recs.len() as u32);
+    for (g, y) in recs {
+        pu16(&mut t, g as u32);
+        t.extend_from_slice(&y.to_be_bytes());
+    }
+    t
+}
+
+// ---------------------------------------------------------------------------------------------
+// one request
+// ---------------------------------------------------------------------------------------------
+
+fn gids_str(g: &[u32]) -> String {
+    // long contiguous requests are abbreviated `a..=b`
+    if g.len() > 48 && g.windows(2).all(|w| w[1] == w[0] + 1) {
+        format!("{}..={}", g[0], g[g.len() - 1])
+    } else {
+        join(g)
+    }
+}
+
+fn input_str(label: &str, req: &Req) -> String {
+    format!(
+        "font={label} flags={:#x} gids=[{}] unicodes=[{}]",
+        req.flags,
+        gids_str(&req.gids),
+        req.unicodes.iter().map(|u| format!("{u:x}")).collect::<Vec<_>>().join(" ")
+    )
+}
+
+fn pairs_str(v: &[(u32, u32)]) -> String {
+    if v.is_empty() {
+        return "-".into();
+    }
+    v.iter().map(|(a, b)| format!("{a} {b}")).collect::<Vec<_>>().join(" ")
+}
+
+fn name_of(post: &Post, gid: u32) -> Option<String> {
+    if gid > 0xFFFF {
+        return None;
+    }
+    post.glyph_name(GlyphId16::new(gid as u16)).map(|s| s.to_string())
+}
+
+fn fmt_name(n: &Option<String>) -> String {
+    match n {
+        None => "none".into(),
+        Some(s) => format!("some {}", hex(s.as_bytes())),
+    }
+}
+
+/// the strings of a readable version 2.0 table as the subset stores them: (name bytes) list, `None` = unreadable
+fn pool_of(t: &[u8]) -> Option<Vec<Vec<u8>>> {
+    let n = rd16(t, 32) as usize;
+    let mut p = 34 + 2 * n;
+    let mut out = vec![];
+    while p < t.len() {
+        let l = t[p] as usize;
+        if p + 1 + l > t.len() {
+            return None;
+        }
+        out.push(t[p + 1..p + 1 + l].to_vec());
+        p += 1 + l;
+    }
+    Some(out)
+}
+
+struct Ctx<'a> {
+    label: &'a str,
+    data: &'a [u8],
+    /// fonts built so that only the `post` subsetter can panic
+    post_may_trap: bool,
+    /// per-font caps on recorded failures of whole-table oracles
+    reported: std::cell::RefCell<std::collections::BTreeMap<String, u32>>,
+}
+
+impl Ctx<'_> {
+    fn oracle_capped(&self, s: &mut Session, name: &str, ok: bool, input: &str, detail: impl FnOnce() -> String) {
+        if !ok {
+            let mut m = self.reported.borrow_mut();
+            let c = m.entry(name.to_string()).or_insert(0);
+            *c += 1;
+            if *c > 3 {
+                s.oracle_checks += 1;
+                s.count(&format!("repeat-failure-not-recorded:{name}"));
+                return;
+            }
+        }
+        s.oracle(name, ok, || input.to_string(), detail);
+    }
+}
+
+fn run_request(s: &mut Session, cx: &Ctx, req: &Req, r: &mut Rng) {
+    let Ok(font) = FontRef::new(cx.data) else { return };
+    if font.cmap().is_err() {
+        return;
+    }
+    let input = input_str(cx.label, req);
+    let planned = catch(|| {
+        let plan = make_plan(&font, req);
+        let view = vh::plan_view(&plan);
+        (plan, view)
+    });
+    let Ok((plan, view)) = planned else {
+        s.oracle("post-part:plan-no-panic", false, || input.clone(), || "Plan::new panicked".into());
+        return;
+    };
+    let result = catch(|| subset_font(&font, &plan));
+    let flags = req.flags;
+    let nout = view.num_output_glyphs;
+    let n2o = &view.new_to_old_gid_list;
+    let max_old = view.glyphset.last().copied();
+    let src_glyphs = view.font_num_glyphs;
+
+    // ---- classification of the whole run
+    let failed_tag: Option<Tag> = match &result {
+        Ok(Err(SubsetError::SubsetTableError(t))) => Some(*t),
+        _ => None,
+    };
+    let panicked = result.is_err();
+    if panicked && !cx.post_may_trap {
+        s.oracle("post-part:subset-no-panic", false, || input.clone(), || format!("{:?}", result.as_ref().err()));
+        return;
+    }
+    if !panicked {
+        cx.oracle_capped(s, "post-part:subset-returns-ok", matches!(&result, Ok(Ok(_))), &input, || format!("{:?}", result.as_ref().ok().and_then(|x| x.as_ref().err())));
+    }
+    if let Ok(Err(e)) = &result {
+        if failed_tag.is_none() {
+            s.count(&format!("subset-font-error:{e:?}"));
+            return;
+        }
+    }
+    let sub_bytes: Option<&Vec<u8>> = match &result {
+        Ok(Ok(b)) => Some(b),
+        _ => None,
+    };
+    let subset = sub_bytes.and_then(|b| FontRef::new(b).ok());
+    if sub_bytes.is_some() && subset.is_none() {
+        s.oracle("post-part:subset-opens", false, || input.clone(), || "FontRef::new failed on the subset".into());
+        return;
+    }
+    // response for one table: ok <hex> | dropped | err | trap ; None = another table failed (nothing to compare)
+    let outcome = |tag: &[u8; 4]| -> Option<(String, Option<Vec<u8>>)> {
+        if panicked {
+            return Some(("trap".into(), None));
+        }
+        if let Some(t) = failed_tag {
+            return if t == Tag::new(tag) { Some(("err".into(), None)) } else { None };
+        }
+        let sf = subset.as_ref()?;
+        Some(match table(sf, tag) {
+            None => ("dropped".into(), None),
+            Some(t) => (format!("ok {}", hex(t)), Some(t.to_vec())),
+        })
+    };
+
+    // ================================================================ post
+    if let Some(t) = table(&font, b"post") {
+        if let Some((resp, out)) = outcome(b"post") {
+            let names_flag = flags & F_GLYPH_NAMES != 0;
+            let ver = if t.len() >= 4 { u32::from_be_bytes([t[0], t[1], t[2], t[3]]) } else { 0 };
+            s.count(&format!("post:v{:x}:{}:{}", ver >> 12, if names_flag { "names" } else { "no-names" }, &resp[..resp.len().min(4)].trim()));
+            s.case(
+                "post2",
+                format!(
+                    "c17.post2 {} {} {} {} M {} T {}",
+                    flags,
+                    nout,
+                    max_old.map(|m| m.to_string()).unwrap_or("-".into()),
+                    src_glyphs,
+                    pairs_str(n2o),
+                    hex(t)
+                ),
+                resp.clone(),
+            );
+            let orig = Post::read(FontData::new(t));
+            if panicked {
+                s.oracle("post-part:subset-no-panic", false, || input.clone(), || format!("{:?}", result.as_ref().err()));
+            }
+            let defined_version = matches!(ver, 0x0001_0000 | 0x0002_0000 | 0x0003_0000);
+            if orig.is_ok() && !panicked && !defined_version {
+                // 2.5 (deprecated, other layout) and undefined versions that read-fonts happens to parse: not judged
+                s.count("post:undefined-version(readability not judged)");
+            }
+            if orig.is_ok() && !panicked && defined_version && failed_tag.is_none() {
+                cx.oracle_capped(s, "post-table-kept-and-readable", out.as_ref().map(|o| Post::read(FontData::new(o)).is_ok()).unwrap_or(false), &input, || {
+                    format!("outcome {} (original version {ver:#x}, {} bytes)", &resp[..resp.len().min(80)], t.len())
+                });
+            } else if !panicked {
+                s.count("post:original-unreadable");
+            }
+            if let (Ok(op), Some(o)) = (&orig, &out) {
+                if !names_flag {
+                    let ok = o.len() == 32 && o[0..4] == [0, 3, 0, 0] && o[4..32] == t[4..32];
+                    s.oracle("post-non-glyph-names-is-v3-header", ok, || input.clone(), || format!("{} vs header {}", hex(&o[..o.len().min(40)]), hex(&t[..32])));
+                } else if ver == 0x0002_0000 {
+                    if let Ok(sp) = Post::read(FontData::new(o)) {
+                        // reader correspondence on a sample of glyph ids (both tables)
+                        for _ in 0..3 {
+                            let g = r.below(nout as u64 + 2) as u32;
+                            s.case("post2.name", format!("c17.post2.name {} {}", g, hex(o)), fmt_name(&name_of(&sp, g)));
+                            let g = r.below(op.num_glyphs().unwrap_or(0) as u64 + 2) as u32;
+                            s.case("post2.name", format!("c17.post2.name {} {}", g, hex(t)), fmt_name(&name_of(op, g)));
+                        }
+                        // ---- glyph names preserved (read-fonts glyph_name, original vs subset)
+                        let notdef = Some(".notdef".to_string());
+                        let mut bad: Option<String> = None;
+                        let hdr_ok = o.len() >= 34 && o[0..32] == t[0..32] && rd16(o, 32) as usize == nout % 65536;
+                        if !hdr_ok {
+                            bad = Some("header / numGlyphs".into());
+                        }
+                        let mut defined = 0;
+                        let mut kept_new = std::collections::BTreeSet::new();
+                        for (new, old) in n2o {
+                            kept_new.insert(*new);
+                            let a = name_of(op, *old);
+                            let b = name_of(&sp, *new);
+                            let want = if a.is_some() { defined += 1; a.clone() } else { notdef.clone() };
+                            if b != want && bad.is_none() {
+                                bad = Some(format!("plan entry (new {new}, old {old}): original {a:?} subset {b:?}"));
+                            }
+                        }
+                        for g in 0..nout as u32 {
+                            if !kept_new.contains(&g) && name_of(&sp, g) != notdef && bad.is_none() {
+                                bad = Some(format!("retain-gids hole {g}: {:?}", name_of(&sp, g)));
+                            }
+                        }
+                        s.count(if defined == n2o.len() { "post:names:all-defined" } else { "post:names:some-undefined" });
+                        s.oracle("post-v2-glyph-names-preserved", bad.is_none(), || input.clone(), || {
+                            format!("{}; original post {} subset post {}", bad.clone().unwrap_or_default(), hex(&t[..t.len().min(900)]), hex(&o[..o.len().min(900)]))
+                        });
+                        // ---- string pool minimal: every string used, none twice, none standard
+                        let pool = pool_of(o);
+                        let ok = match &pool {
+                            None => false,
+                            Some(p) => {
+                                let used: std::collections::BTreeSet<usize> =
+                                    (0..nout).filter_map(|g| { let i = rd16(o, 34 + 2 * g) as usize; if i >= 258 { Some(i - 258) } else { None } }).collect();
+                                let distinct: std::collections::BTreeSet<&Vec<u8>> = p.iter().collect();
+                                (0..p.len()).all(|k| used.contains(&k))
+                                    && used.iter().all(|k| *k < p.len())
+                                    && distinct.len() == p.len()
+                                    && p.iter().all(|nm| !DEFAULT_GLYPH_NAMES.iter().any(|d| d.as_bytes() == nm.as_slice()))
+                            }
+                        };
+                        s.count(&format!("post:pool:{}", match pool.as_ref().map(|p| p.len()) { None => "unreadable", Some(0) => "0", Some(1..=5) => "1-5", Some(_) => "6+" }));
+                        s.oracle("post-v2-string-pool-minimal", ok, || input.clone(), || format!("subset post {}", hex(&o[..o.len().min(900)])));
+                    }
+                }
+            }
+        }
+    }
+
+    // ================================================================ maxp
+    if let (Some(t), Some((resp, out))) = (table(&font, b"maxp"), outcome(b"maxp")) {
+        if !panicked && font.maxp().is_ok() {
+            let want = match &out {
+                Some(o) => format!("{} numGlyphs={}", hex(o), if o.len() >= 6 { rd16(o, 4) } else { 0 }),
+                None => resp.clone(),
+            };
+            s.case("maxp2", format!("c17.maxp2 {} {} {}", flags, nout, hex(t)), want);
+            s.count(&format!("maxp:v{}:{}", if t[1] == 1 { "1.0" } else { "0.5" }, if flags & F_NO_HINTING != 0 { "no-hinting" } else { "hinting" }));
+            if let (Some(o), Some(sf)) = (&out, &subset) {
+                // exactly numGlyphs and (version 1.0 + NO_HINTING) the seven hinting limits differ
+                let v1 = t.len() >= 32 && t[0..4] == [0, 1, 0, 0];
+                let mut ok = o.len() == t.len() && rd16(o, 4) as usize == nout.min(0xFFFF);
+                if ok {
+                    for i in 0..t.len() {
+                        let changed_ok = (4..6).contains(&i) || (v1 && flags & F_NO_HINTING != 0 && (14..28).contains(&i));
+                        if !changed_ok && o[i] != t[i] {
+                            ok = false;
+                        }
+                    }
+                    if v1 && flags & F_NO_HINTING != 0 {
+                        ok &= o[14..28] == [0, 1, 0, 0, 0, 0, 0, 0, 0, 0, 0, 0, 0, 0];
+                    }
+                }
+                s.oracle("maxp-only-num-glyphs-and-hinting-limits-changed", ok, || input.clone(), || format!("{} vs {}", hex(o), hex(t)));
+                // the copied limits still bound the kept glyphs
+                if v1 && sf.glyf().is_ok() && font.glyf().is_ok() && nout <= 3000 {
+                    let orig_bound = (0..src_glyphs.min(0xFFFF) as u32).fold(GStat::default(), |m, g| m.max(gstat(&font, g))).bounded_by(t);
+                    if orig_bound {
+                        let sub_max = (0..nout as u32).fold(GStat::default(), |m, g| m.max(gstat(sf, g)));
+                        s.count("maxp:limits:original-is-a-bound");
+                        s.oracle("maxp-limits-still-bound-kept-glyphs", sub_max.bounded_by(o), || input.clone(), || format!("subset needs {sub_max:?}, maxp {}", hex(o)));
+                    } else {
+                        s.count("maxp:limits:original-not-a-bound(skipped)");
+                    }
+                }
+            }
+        }
+    }
+
+    // ================================================================ head
+    if let (Some(t), Some((resp, out))) = (table(&font, b"head"), outcome(b"head")) {
+        // bytes 8..12 (checkSumAdjustment) are recomputed for the new file by write-fonts' FontBuilder::build, not by
+        // klippa: they are compared as if unchanged
+        let norm = |mut o: Vec<u8>| {
+            if o.len() >= 12 && t.len() >= 12 {
+                o[8..12].copy_from_slice(&t[8..12]);
+            }
+            o
+        };
+        let out = out.map(norm);
+        let resp = match &out {
+            Some(o) => format!("ok {}", hex(o)),
+            None => resp,
+        };
+        if !panicked {
+            let has_glyf = font.glyf().is_ok();
+            if let Some(sf) = &subset {
+                let loca_len = table(sf, b"loca").map(|l| l.len());
+                if has_glyf {
+                    if let Some(ll) = loca_len {
+                        let fmt = if ll == 2 * (nout + 1) { 0 } else { 1 };
+                        s.count(&format!("head:loca-format:{fmt}"));
+                        s.case("head", format!("c17.head {} {}", fmt, hex(t)), resp.strip_prefix("ok ").unwrap_or("none").to_string());
+                        if let Some(o) = &out {
+                            let same = o.len() == t.len() && o.len() >= 54 && (0..t.len()).all(|i| (50..52).contains(&i) || o[i] == t[i]);
+                            let fmt_ok = o.len() >= 52 && o[50] == 0 && o[51] == fmt as u8 && (ll == (nout + 1) * if fmt == 0 { 2 } else { 4 });
+                            s.oracle("head-only-loca-format-changed", same && fmt_ok, || input.clone(), || format!("{} vs {} loca {} bytes nout {nout}", hex(o), hex(t), ll));
+                        } else {
+                            s.oracle("head-only-loca-format-changed", false, || input.clone(), || "head missing although loca was written".into());
+                        }
+                    } else {
+                        s.count("head:glyf-subset-failed(no loca)");
+                    }
+                } else {
+                    s.count("head:no-glyf");
+                    s.case("head", format!("c17.head.noglyf {}", hex(t)), resp.strip_prefix("ok ").unwrap_or("none").to_string());
+                    s.oracle("head-only-loca-format-changed", out.as_deref() == Some(t), || input.clone(), || "head changed in a font without glyf".into());
+                }
+            }
+        }
+    }
+
+    // ================================================================ hhea
+    if let (Some(t), Some((resp, out))) = (table(&font, b"hhea"), outcome(b"hhea")) {
+        if !panicked {
+            if let Some(sf) = &subset {
+                match table(sf, b"hmtx") {
+                    Some(hm) if nout >= 1 && hm.len() >= 2 * nout && (hm.len() - 2 * nout) % 2 == 0 => {
+                        // numberOfHMetrics as implied by the hmtx length alone
+                        let num_h = (hm.len() - 2 * nout) / 2;
+                        s.count(if num_h == nout { "hhea:all-long" } else if num_h == 1 { "hhea:one-long" } else { "hhea:trimmed" });
+                        s.case("hhea", format!("c17.hhea {} {}", num_h, hex(t)), resp.strip_prefix("ok ").unwrap_or("none").to_string());
+                        match &out {
+                            Some(o) => {
+                                let same = o.len() == t.len() && o.len() >= 36 && (0..t.len()).all(|i| (34..36).contains(&i) || o[i] == t[i]);
+                                let field = o.len() >= 36 && rd16(o, 34) as usize == num_h;
+                                let readable = sf.hmtx().is_ok();
+                                s.oracle("hhea-only-num-h-metrics-changed", same && field && readable, || input.clone(), || {
+                                    format!("{} vs {} hmtx {} bytes nout {nout} readable {readable}", hex(o), hex(t), hm.len())
+                                });
+                            }
+                            None => s.oracle("hhea-only-num-h-metrics-changed", false, || input.clone(), || "hmtx written but hhea missing".into()),
+                        }
+                    }
+                    Some(_) => s.count("hhea:hmtx-length-odd(skipped)"),
+                    None => {
+                        s.count("hhea:no-hmtx");
+                        // hhea is only ever emitted by Hmtx::subset
+                        s.oracle("hhea-only-num-h-metrics-changed", out.is_none(), || input.clone(), || "hhea without hmtx".into());
+                    }
+                }
+            }
+        }
+    }
+
+    // ================================================================ VORG
+    if let (Some(t), Some((resp, out))) = (table(&font, b"VORG"), outcome(b"VORG")) {
+        if !panicked {
+            s.count(&format!("vorg:{}", &resp[..resp.len().min(4)].trim()));
+            s.case("vorg", format!("c17.vorg {} {} M {} T {}", src_glyphs, nout, pairs_str(n2o), hex(t)), resp.clone());
+            if let (Ok(ov), Some(o)) = (font.vorg(), &out) {
+                let recs = ov.vert_origin_y_metrics();
+                let sorted = recs.windows(2).all(|w| w[0].glyph_index().to_u32() < w[1].glyph_index().to_u32());
+                s.count(if sorted { "vorg:source-sorted" } else { "vorg:source-unsorted" });
+                for _ in 0..3 {
+                    let g = r.below(src_glyphs as u64 + 3) as u32;
+                    if sorted {
+                        s.case("vorg.read", format!("c17.vorg.read {} {}", g, hex(t)), (ov.vertical_origin_y(GlyphId::new(g)) as u16).to_string());
+                    }
+                }
+                match read_fonts::tables::vorg::Vorg::read(FontData::new(o)) {
+                    Err(_) => s.oracle("vorg-origin-preserved", false, || input.clone(), || "subset VORG unreadable".into()),
+                    Ok(sv) => {
+                        if sorted {
+                            let srecs = sv.vert_origin_y_metrics();
+                            let still_sorted = srecs.windows(2).all(|w| w[0].glyph_index().to_u32() < w[1].glyph_index().to_u32());
+                            let mut bad = if still_sorted { None } else { Some("subset records not ascending".to_string()) };
+                            for (new, old) in n2o {
+                                let a = ov.vertical_origin_y(GlyphId::new(*old));
+                                let b = sv.vertical_origin_y(GlyphId::new(*new));
+                                if a != b && bad.is_none() {
+                                    bad = Some(format!("(new {new}, old {old}): {a} vs {b}"));
+                                }
+                            }
+                            if sv.default_vert_origin_y() != ov.default_vert_origin_y() {
+                                bad = Some("default changed".into());
+                            }
+                            s.oracle("vorg-origin-preserved", bad.is_none(), || input.clone(), || format!("{}; {} -> {}", bad.clone().unwrap_or_default(), hex(t), hex(o)));
+                            for _ in 0..2 {
+                                let g = r.below(nout as u64 + 2) as u32;
+                                s.case("vorg.read", format!("c17.vorg.read {} {}", g, hex(o)), (sv.vertical_origin_y(GlyphId::new(g)) as u16).to_string());
+                            }
+                        }
+                    }
+                }
+            }
+        }
+    }
+
+    // ================================================================ vmtx / vhea (pass-through at this commit)
+    if let (Some(t), Some((resp, out))) = (table(&font, b"vmtx"), outcome(b"vmtx")) {
+        if !panicked {
+            s.case("vmtx", format!("c17.vmtx {}", hex(t)), resp.strip_prefix("ok ").unwrap_or(&resp).to_string());
+            if let Some(vh_t) = table(&font, b"vhea") {
+                if let Some((r2, _)) = outcome(b"vhea") {
+                    s.case("vmtx", format!("c17.vmtx {}", hex(vh_t)), r2.strip_prefix("ok ").unwrap_or(&r2).to_string());
+                }
+            }
+            if let (Ok(ov), Some(sf), Some(_)) = (font.vmtx(), &subset, &out) {
+                let renumbered = n2o.iter().any(|(n, o)| n != o);
+                s.count(if renumbered { "vmtx:renumbered" } else { "vmtx:identity-map" });
+                match sf.vmtx() {
+                    Err(_) => s.oracle("vmtx-vertical-metrics-preserved", false, || input.clone(), || "subset vmtx unreadable".into()),
+                    Ok(sv) => {
+                        let mut bad = None;
+                        for (new, old) in n2o {
+                            let a = (ov.advance(GlyphId::new(*old)), ov.side_bearing(GlyphId::new(*old)));
+                            let b = (sv.advance(GlyphId::new(*new)), sv.side_bearing(GlyphId::new(*new)));
+                            if a != b && bad.is_none() {
+                                bad = Some(format!("(new {new}, old {old}): original {a:?} subset {b:?}"));
+                            }
+                        }
+                        cx.oracle_capped(s, "vmtx-vertical-metrics-preserved", bad.is_none(), &input, || bad.clone().unwrap_or_default());
+                    }
+                }
+            }
+        }
+    }
+}
+
+// ---------------------------------------------------------------------------------------------
+// requests
+// ---------------------------------------------------------------------------------------------
+
+fn rand_req(r: &mut Rng, n: usize, cps: &[u32], names_bias: bool) -> Req {
+    let mut flags = 0u16;
+    if r.chance(if names_bias { 4 } else { 1 }, 5) {
+        flags |= F_GLYPH_NAMES;
+    }
+    if r.chance(2, 5) {
+        flags |= F_RETAIN_GIDS;
+    }
+    if r.chance(1, 3) {
+        flags |= F_NO_HINTING;
+    }
+    if r.chance(1, 3) {
+        flags |= F_NOTDEF_OUTLINE;
+    }
+    let mut gids = std::collections::BTreeSet::new();
+    let mut unicodes = std::collections::BTreeSet::new();
+    match r.below(8) {
+        0 => {
+            for g in 0..n as u32 {
+                gids.insert(g); // everything
+            }
+        }
+        1 => {
+            gids.insert(r.below(n as u64) as u32);
+        }
+        2 => {
+            // a dense block (many long metrics / many names)
+            let a = r.below(n as u64) as u32;
+            for g in a..(a + 1 + r.below(n as u64) as u32).min(n as u32) {
+                gids.insert(g);
+            }
+        }
+        3 if !cps.is_empty() => {
+            for _ in 0..1 + r.below(6) {
+                unicodes.insert(*r.pick(cps));
+            }
+        }
+        4 => {
+            // every k-th glyph
+            let k = 2 + r.below(3) as usize;
+            for g in (r.below(k as u64) as usize..n).step_by(k) {
+                gids.insert(g as u32);
+            }
+        }
+        _ => {
+            for _ in 0..1 + r.below((n as u64).min(14)) {
+                gids.insert(r.below(n as u64 + 1) as u32);
+            }
+            if !cps.is_empty() && r.chance(1, 2) {
+                unicodes.insert(*r.pick(cps));
+            }
+        }
+    }
+    Req { gids: gids.into_iter().collect(), unicodes: unicodes.into_iter().collect(), flags }
+}
+
+fn font_cps(data: &[u8]) -> Vec<u32> {
+    use skrifa::MetadataProvider;
+    FontRef::new(data).map(|f| f.charmap().mappings().map(|(c, _)| c).take(2000).collect()).unwrap_or_default()
+}
+
+fn run_font(s: &mut Session, r: &mut Rng, label: &str, data: &[u8], nreq: usize, names_bias: bool, post_may_trap: bool) {
+    let Ok(font) = FontRef::new(data) else { return };
+    let n = font.maxp().map(|m| m.num_glyphs() as usize).unwrap_or(0).max(1);
+    let cps = font_cps(data);
+    let cx = Ctx { label, data, post_may_trap, reported: Default::default() };
+    for _ in 0..nreq {
+        let req = rand_req(r, n, &cps, names_bias);
+        run_request(s, &cx, &req, r);
+    }
+}
+
+// ---------------------------------------------------------------------------------------------
+// unit level: the Pascal string readers of read-fonts (what klippa iterates vs what glyph_name indexes)
+// ---------------------------------------------------------------------------------------------
+
+fn pstring_unit(s: &mut Session, r: &mut Rng, count: usize) {
+    for _ in 0..count {
+        let mut data: Vec<u8> = vec![];
+        let k = r.below(7);
+        for _ in 0..k {
+            let l = *r.pick(&[0usize, 1, 2, 3, 5, 9]);
+            data.push(l as u8);
+            for _ in 0..l {
+                data.push(if r.chance(1, 12) { 0x80 + r.below(0x80) as u8 } else { 0x21 + r.below(0x5E) as u8 });
+            }
+        }
+        match r.below(6) {
+            0 if !data.is_empty() => {
+                let c = 1 + r.below(data.len().min(3) as u64) as usize;
+                data.truncate(data.len() - c);
+            }
+            1 => data.push(4),
+            2 => data.extend_from_slice(&[200, b'x', b'y']),
+            _ => {}
+        }
+        let mut t = vec![0, 2, 0, 0];
+        t.extend_from_slice(&[0; 28]);
+        t.extend_from_slice(&[0, 0]);
+        t.extend_from_slice(&data);
+        let post = Post::read(FontData::new(&t)).expect("post");
+        let arr = post.string_data().expect("string data");
+        let items: Vec<Option<String>> = arr.iter().map(|x| x.ok().map(|p| p.as_str().to_string())).collect();
+        let item_str = |x: &Option<String>| match x {
+            None => "E".to_string(),
+            Some(b) => hex(b.as_bytes()),
+        };
+        s.case("post2.iter", format!("c17.post2.iter {}", hex(&data)), if items.is_empty() { ".".into() } else { items.iter().map(item_str).collect::<Vec<_>>().join(" ") });
+        let mut agree = true;
+        for idx in 0..(items.len() + 3) {
+            let g = match arr.get(idx) {
+                Some(Ok(p)) => Some(p.as_str().to_string()),
+                _ => None,
+            };
+            s.case("post2.get", format!("c17.post2.get {} {}", idx, hex(&data)), fmt_name(&g));
+            let via_iter = items.get(idx).cloned().flatten();
+            if g != via_iter {
+                agree = false;
+            }
+        }
+        // klippa indexes the collected iterator, glyph_name() uses get(): they must denote the same strings
+        s.oracle("post-string-get=iter", agree, || format!("string data {}", hex(&data)), || format!("iter {items:?}"));
+    }
+}
+
+// ---------------------------------------------------------------------------------------------
+// 65535 glyphs, every one with its own custom name: the u16 name counter reaches its last value
+// ---------------------------------------------------------------------------------------------
+
+fn giant_names(s: &mut Session, r: &mut Rng) {
+    let n = 65535usize;
+    let t0 = std::time::Instant::now();
+    let (adv, lsb, num_long) = (vec![500u16; n], vec![0i16; n], 1);
+    let mut glyphs = vec![vec![]; n];
+    glyphs[0] = sized_simple(30, 1);
+    glyphs[7] = sized_simple(30, 2);
+    let sy = Syn { name: "x".into(), glyphs, adv, lsb, num_long, cmap: vec![(0x41, 7)], long_loca: false, align: 2 };
+    let base = build_font(&sy);
+    // glyph g is named "n<g in base 36>", all indices custom: 258 + g (65535 - 258 + 1 = 65278 usable indices:
+    // glyphs beyond that share the last names)
+    let name = |g: usize| -> Vec<u8> { format!("n{}", (0..4).map(|k| char::from_digit(((g / 36usize.pow(k)) % 36) as u32, 36).unwrap()).collect::<String>()).into_bytes() };
+    let usable = 65536 - 258;
+    let idx: Vec<u16> = (0..n).map(|g| (258 + g.min(usable - 1)) as u16).collect();
+    let strings: Vec<Vec<u8>> = (0..usable).map(name).collect();
+    let post = build_post(r, &PostSpec { version: 0x0002_0000, idx, strings, cut: 0, tail: vec![] });
+    let data = with_tables(&base, vec![(*b"post", post)]);
+    let font = FontRef::new(&data).expect("giant font");
+    let op = font.post().expect("giant post");
+    // keep exactly `k` glyphs (all with distinct names): k = 65278 makes the counter take its last value 65535
+    for (k, flags) in [(usable, F_GLYPH_NAMES), (usable - 1, F_GLYPH_NAMES), (usable, F_GLYPH_NAMES | F_RETAIN_GIDS), (n, F_GLYPH_NAMES)] {
+        let req = Req { gids: (0..k as u32).collect(), unicodes: vec![], flags };
+        let input = format!("font=syn:post-giant-names flags={flags:#x} gids=[0..{k}] unicodes=[]");
+        let res = catch(|| {
+            let plan = make_plan(&font, &req);
+            (vh::plan_view(&plan), subset_font(&font, &plan))
+        });
+        s.count(&format!("post:giant:{}", match &res { Err(_) => "panic", Ok((_, Err(_))) => "err", Ok((_, Ok(_))) => "ok" }));
+        s.oracle("post-part:subset-no-panic", res.is_ok(), || input.clone(), || format!("{:?}", res.as_ref().err()));
+        let Ok((view, Ok(bytes))) = res else { continue };
+        let Ok(sf) = FontRef::new(&bytes) else { continue };
+        let Ok(sp) = sf.post() else {
+            s.oracle("post-v2-glyph-names-preserved", false, || input.clone(), || "subset post unreadable".into());
+            continue;
+        };
+        // a sample of entries, biased to the end of the string pool (read-fonts' get() is linear)
+        let mut bad = None;
+        let m = view.new_to_old_gid_list.len();
+        for j in 0..400 {
+            let e = if j < 200 { m - 1 - j.min(m - 1) } else { r.below(m as u64) as usize };
+            let (new, old) = view.new_to_old_gid_list[e];
+            let (a, b) = (name_of(&op, old), name_of(&sp, new));
+            if a != b && bad.is_none() {
+                bad = Some(format!("(new {new}, old {old}): {a:?} vs {b:?}"));
+            }
+        }
+        s.oracle("post-v2-glyph-names-preserved", bad.is_none(), || input.clone(), || bad.clone().unwrap_or_default());
+    }
+    s.notes.push(format!("c17/postx.rs giant names font: {:.1} s", t0.elapsed().as_secs_f64()));
+}
+
+// ---------------------------------------------------------------------------------------------
+// entry point
+// ---------------------------------------------------------------------------------------------
+
+pub fn run(cfg: &Config, s: &mut Session, r: &mut Rng) {
+    let th = cfg.thorough();
+    let t0 = std::time::Instant::now();
+
+    // the Lean copy of DEFAULT_GLYPH_NAMES against the Rust constant
+    s.case("post2.stdnames", "c17.post2.stdnames".into(), DEFAULT_GLYPH_NAMES.iter().map(|n| hex(n.as_bytes())).collect::<Vec<_>>().join(" "));
+    pstring_unit(s, r, if th { 4000 } else { 300 });
+
+    // (A) synthetic glyf fonts with hand-built post tables (+ exact maxp, sometimes VORG / vhea / vmtx)
+    let nfonts = if th { 900u64 } else { 70 };
+    for id in 0..nfonts {
+        let n = match id % 10 {
+            0 => 259 + r.below(60) as usize, // more glyphs than standard names
+            1 => 1 + r.below(3) as usize,
+            _ => 3 + r.below(45) as usize,
+        };
+        let sy = base_syn(r, "x", n, n > 100);
+        let base = build_font(&sy);
+        let mut tables: Vec<([u8; 4], Vec<u8>)> = vec![];
+        let kind = id % 14;
+        let (label, post) = match kind {
+            0 => (format!("syn:post-v3#{id}"), build_post(r, &PostSpec { version: 0x0003_0000, idx: vec![], strings: vec![], cut: 0, tail: vec![] })),
+            1 => (format!("syn:post-v1#{id}"), build_post(r, &PostSpec { version: 0x0001_0000, idx: vec![], strings: vec![], cut: 0, tail: vec![] })),
+            2 => {
+                // version 2.5 as the specification lays it out (numGlyphs + one i8 per glyph): read-fonts parses it
+                // with the 2.0 shape
+                let mut t = build_post(r, &PostSpec { version: 0x0003_0000, idx: vec![], strings: vec![], cut: 0, tail: vec![] });
+                t[0..4].copy_from_slice(&[0, 2, 0x50, 0]);
+                pu16(&mut t, n as u32);
+                t.extend(r.bytes(n));
+                (format!("syn:post-v25#{id}"), t)
+            }
+            3 => {
+                // major version 2 with another minor version and the 2.0 layout
+                let mut sp = rand_post_v2(r, n);
+                sp.version = *r.pick(&[0x0002_5000u32, 0x0002_0001, 0x0002_1000]);
+                (format!("syn:post-v2x#{id}"), build_post(r, &sp))
+            }
+            4 => {
+                let sp = rand_post_v2(r, n);
+                let mut t = build_post(r, &sp);
+                t.truncate(*r.pick(&[0usize, 3, 31, 33, 35]).min(&t.len())); // unreadable
+                (format!("syn:post-short#{id}"), t)
+            }
+            _ => {
+                let sp = rand_post_v2(r, n);
+                (format!("syn:post#{id}"), build_post(r, &sp))
+            }
+        };
+        tables.push((*b"post", post));
+        tables.push((*b"maxp", match id % 11 { 5 => { let mut m = vec![0, 0, 0x50, 0]; pu16(&mut m, n as u32); m } _ => true_maxp(r, &base, n, if id % 6 == 1 { 3 } else { 0 }) }));
+        if id % 3 == 0 {
+            tables.push((*b"VORG", vorg_table(r, n, id % 9 != 0)));
+        }
+        if id % 4 == 1 {
+            let nl = if r.chance(1, 2) { n } else { 1 + r.below(n as u64) as usize };
+            tables.push((*b"vhea", vhea_table(nl)));
+            tables.push((*b"vmtx", vmtx_table(r, n, nl, true)));
+        }
+        if id % 8 == 2 {
+            // longer head / hhea tables (trailing bytes are copied)
+            let f = FontRef::new(&base).unwrap();
+            let mut h = table(&f, b"head").unwrap().to_vec();
+            h.extend(r.bytes(2));
+            let mut hh = table(&f, b"hhea").unwrap().to_vec();
+            hh.extend(r.bytes(4));
+            tables.push((*b"head", h));
+            tables.push((*b"hhea", hh));
+        }
+        let label = if tables.iter().any(|(t, _)| t == b"vmtx") { format!("{label}+vmtx") } else { label };
+        let data = with_tables(&base, tables);
+        run_font(s, r, &label, &data, if th { 8 } else { 5 }, true, false);
+    }
+
+    // (B) fixed stress fonts
+    {
+        // post numGlyphs far below the font's glyph count: the rebuilt table does not fit 256 x the source length
+        let n = 4200;
+        let sy = base_syn(r, "x", n, true);
+        let base = build_font(&sy);
+        let post = build_post(r, &PostSpec { version: 0x0002_0000, idx: vec![3], strings: vec![], cut: 0, tail: vec![] });
+        let data = with_tables(&base, vec![(*b"post", post), (*b"maxp", true_maxp(r, &base, n, 0))]);
+        let cx = Ctx { label: "syn:post-tiny-numglyphs-4200", data: &data, post_may_trap: false, reported: Default::default() };
+        for flags in [F_GLYPH_NAMES, F_GLYPH_NAMES | F_RETAIN_GIDS, 0] {
+            run_request(s, &cx, &Req { gids: (0..n as u32).collect(), unicodes: vec![], flags }, r);
+            run_request(s, &cx, &Req { gids: vec![5, 4100], unicodes: vec![], flags }, r);
+        }
+    }
+    {
+        // a font without any glyph: plan.glyphset is empty
+        let sy = Syn { name: "x".into(), glyphs: vec![], adv: vec![], lsb: vec![], num_long: 0, cmap: vec![], long_loca: false, align: 2 };
+        let base = build_font(&sy);
+        let post = build_post(r, &PostSpec { version: 0x0002_0000, idx: vec![], strings: vec![b"a".to_vec()], cut: 0, tail: vec![] });
+        let data = with_tables(&base, vec![(*b"post", post)]);
+        let cx = Ctx { label: "syn:post-noglyphs", data: &data, post_may_trap: false, reported: Default::default() };
+        for flags in [F_GLYPH_NAMES, 0] {
+            run_request(s, &cx, &Req { gids: vec![], unicodes: vec![], flags }, r);
+            run_request(s, &cx, &Req { gids: vec![0], unicodes: vec![0x41], flags }, r);
+        }
+    }
+    {
+        giant_names(s, r);
+    }
+    {
+        // a font without glyf: head goes through Head::subset
+        let sy = base_syn(r, "x", 6, false);
+        let base = build_font(&sy);
+        let data = without_table(&without_table(&base, b"glyf"), b"loca");
+        run_font(s, r, "syn:post-noglyf", &data, 4, false, false);
+    }
+    s.notes.push(format!("c17/postx.rs synthetic part: {:.1} s", t0.elapsed().as_secs_f64()));
+
+    // (C) corpus fonts with post / VORG / vmtx
+    let t1 = std::time::Instant::now();
+    let mut files: Vec<std::path::PathBuf> = vec![];
+    for dir in ["/repo/font-test-data/test_data/ttf", "/repo/klippa/test-data/fonts"] {
+        let mut fs: Vec<_> = std::fs::read_dir(dir).map(|d| d.filter_map(|e| e.ok()).map(|e| e.path()).collect()).unwrap_or_default();
+        fs.sort();
+        files.extend(fs);
+    }
+    for p in files {
+        let ext = p.extension().and_then(|e| e.to_str()).unwrap_or("");
+        if ext != "ttf" && ext != "otf" {
+            continue;
+        }
+        let Ok(data) = std::fs::read(&p) else { continue };
+        let Ok(font) = FontRef::new(&data) else { continue };
+        if font.cmap().is_err() || font.maxp().is_err() {
+            continue;
+        }
+        let post_v2 = table(&font, b"post").map(|t| t.len() >= 4 && t[0..4] == [0, 2, 0, 0]).unwrap_or(false);
+        let vert = table(&font, b"VORG").is_some() || table(&font, b"vmtx").is_some();
+        if !post_v2 && !vert && !(th && font.glyf().is_ok()) {
+            continue;
+        }
+        let n = font.maxp().map(|m| m.num_glyphs() as usize).unwrap_or(0);
+        if n == 0 {
+            continue;
+        }
+        s.count("postx:corpus-fonts");
+        let label = format!("corpus:{}", p.file_name().unwrap().to_string_lossy());
+        let nreq = if n > 1000 { if th { 6 } else { 2 } } else if th { 14 } else { 4 };
+        run_font(s, r, &label, &data, nreq, true, false);
+    }
+    s.notes.push(format!("c17/postx.rs corpus part: {:.1} s", t1.elapsed().as_secs_f64()));
+}
